@@ -527,6 +527,9 @@ fn register_layout(hname: &str, h: &H) {
             match loc.name {
                 "mm_lock" | "wtf_lock" | "mm_epoch" | "token" => {
                     st.mm_addrs.insert(loc.addr);
+                    if loc.name == "mm_epoch" {
+                        st.mm_epoch_addr = loc.addr;
+                    }
                 }
                 "signal" => st.signal_addr = loc.addr,
                 _ => {}
@@ -582,6 +585,10 @@ pub fn run_opt(
         st.mm_addrs.clear();
         st.signal_addr = 0;
         st.transparent_mm = transparent_mm;
+        st.mm_epoch_addr = 0;
+        st.cur_epoch = 0;
+        st.retired.clear();
+        st.live_tokens = 0;
     }
     payload::reset_serials();
     *TBL.lock().unwrap_or_else(|p| p.into_inner()) = Some(HashMap::new());
